@@ -86,6 +86,7 @@ type SymRun struct {
 	Concrete         map[string]int64 // fix all nondets (translator validation)
 	Prune            bool
 	SymbolicMapOrder bool
+	ConcreteFmt      bool
 	ForkFuncs        []string
 	InitPkgs         func(string) bool
 	InitExtra        []string
@@ -140,6 +141,7 @@ func Exec(prog *ssa.Program, pkg *ssa.Package, modPrefix string, r SymRun) (*Sym
 	cfg := engine.Config{Trace: os.Getenv("GV_TRACE") != "", LoopBound: r.LoopBound, LoopBounds: r.LoopBounds, RecBound: r.RecBound, PruneBranch: r.Prune, Intrinsics: r.Intrinsics}
 	cfg.InitPkgs = r.InitPkgs
 	cfg.SymbolicMapOrder = r.SymbolicMapOrder
+	cfg.ConcreteFmt = r.ConcreteFmt
 	cfg.SkipInitFuncs = r.SkipInitFuncs
 	cfg.ForkFuncs = map[string]bool{}
 	for _, f := range r.ForkFuncs {
@@ -287,7 +289,10 @@ func (t *Target) BuildReplayBinary(bin, tmp string) error {
 func (t *Target) RunReplayBinary(bin, harness, replayPath string) (*NativeResult, error) {
 	cmd := exec.Command("timeout", "120", bin, "-test.run", "^TestVerifReplay$", "-test.v")
 	cmd.Dir = t.PkgDir
-	cmd.Env = append(os.Environ(), "VERIF_REPLAY="+replayPath, "VERIF_HARNESS="+harness)
+	// harnesses that need files (C14 pipeline) create them under TMPDIR; it goes away with the run
+	td, _ := os.MkdirTemp(filepath.Dir(bin), "run")
+	defer os.RemoveAll(td)
+	cmd.Env = append(os.Environ(), "VERIF_REPLAY="+replayPath, "VERIF_HARNESS="+harness, "TMPDIR="+td)
 	var out bytes.Buffer
 	cmd.Stdout = &out
 	cmd.Stderr = &out
